@@ -31,8 +31,8 @@ def gen_curve(rng, lo=32, hi=64, clampy=False):
             v = rng.choice([Fraction(5, 4), Fraction(1, 200), Fraction(98), v])
         return [v]
     loads = sorted(rng.sample([Fraction(i, 8) for i in range(0, 9)], k))
-    if rng.random() < 0.25:            # a data sheet with an overload point (110 %, 125 % of rated power)
-        loads = sorted(set(loads[:-1] + [rng.choice([Fraction(11, 10), Fraction(5, 4)])]))
+    if rng.random() < 0.25:            # a data sheet with an overload point (112.5 %, 125 % of rated power)
+        loads = sorted(set(loads[:-1] + [rng.choice([Fraction(9, 8), Fraction(5, 4)])]))      # (dyadic: keeps the 201-point tables small)
         k = len(loads)
     style = rng.choice(["rising", "any", "any", "peak"])
     vals = sorted(val() for _ in range(k)) if style == "rising" else [val() for _ in range(k)]
